@@ -1,1 +1,63 @@
-From QS Require Import theories.Backtest.
+(** C18 — Identical inputs give identical results.
+    [run] is a Gallina function, so within the model a backtest is trivially a function of its
+    inputs; the theorems below are about what could make the CODE not be one: the enumeration order
+    of sets and dicts (which the string-hash seed changes) and the memo in front of the data source. *)
+From Coq Require Import ZArith QArith String List Permutation.
+From QS Require Import theories.Num theories.Position theories.Portfolio theories.Fees theories.Sizer theories.PCM
+  theories.Signals theories.Backtest proofs.PcmProofs proofs.Determinism.
+Import ListNotations.
+Open Scope Z_scope.
+
+(** the asset list of a rebalance is invariant under any permutation of the holdings report and
+    of the universe enumeration *)
+Theorem rebalance_asset_list_ignores_enumeration_order :
+  forall held held' univ univ',
+    Permutation held held' -> Permutation univ univ' -> full_assets held univ = full_assets held' univ'.
+Proof. exact full_assets_order_irrelevant. Qed.
+Print Assumptions rebalance_asset_list_ignores_enumeration_order.
+
+(** weight sums (normalisation) are invariant under permutation; per-asset sizing depends on the
+    values only; the sizers iterate in sorted asset order and the orders are emitted sorted (C09) *)
+Theorem sums_ignore_enumeration_order : forall l l', Permutation l l' -> (qsum l == qsum l')%Q.
+Proof. exact qsum_perm. Qed.
+Print Assumptions sums_ignore_enumeration_order.
+Theorem sizing_depends_on_values_only : forall E E' fee w w' p p',
+  (E == E')%Q -> (w == w')%Q -> (p == p')%Q -> lo_qty E fee w p = lo_qty E' fee w' p'.
+Proof. exact lo_qty_proper. Qed.
+Print Assumptions sizing_depends_on_values_only.
+Theorem orders_sorted_whatever_the_target_order : forall (l : list (string * Z)),
+  Permutation (sort_by_key l) l /\ Sorted.StronglySorted key_le (sort_by_key l).
+Proof. intro l. exact (conj (sort_perm l) (sort_sorted l)). Qed.
+Print Assumptions orders_sorted_whatever_the_target_order.
+
+(** the asset list a signal exposes to alpha models is (old list) ++ (new entrants in universe
+    order): a function of the configuration alone *)
+Theorem signal_assets_deterministic : forall assets univ_now,
+  update_assets assets univ_now = assets ++ filter (fun a => negb (existsb (String.eqb a) assets)) univ_now.
+Proof. exact update_assets_def. Qed.
+Print Assumptions signal_assets_deterministic.
+
+(** a memoised lookup answers like the function it wraps after ANY history of earlier queries *)
+Theorem memo_is_transparent :
+  forall (K V : Type) (keq : K -> K -> bool) (f : K -> V),
+    (forall a b, keq a b = true -> a = b) ->
+    forall hist k,
+      let c := fold_left (fun c k => snd (memo_get K V keq f c k)) hist [] in
+      fst (memo_get K V keq f c k) = f k.
+Proof.
+  intros K V keq f H hist k c. apply (memo_transparent K V keq f H). apply memo_history_ok. exact H.
+Qed.
+Print Assumptions memo_is_transparent.
+
+(** The pinned behaviour (new entrants appended in an order picked by the hash seed) leaks into the
+    results: with the top-N momentum alpha of examples/momentum_taa.py and tied momenta, two
+    different orders give different target weights. *)
+Definition g_pinned (order : list string -> list string) : sigstate :=
+  let assets := update_assets_pinned order [] ["B"; "A"; "C"]%string in
+  mkSig assets (flat_map (fun a => [((a, 2%nat), [(10 # 1)%Q; (10 # 1)%Q])]) assets) [] 1.
+Definition cfg18 : config :=
+  mkCfg 0 0 (StaticU ["B"; "A"; "C"]%string) (ATopN 1 1) 0%Q RDaily true 0%Q ZeroFee None (Some [1%nat]).
+Example assets_order_leak_refuted :
+  alpha_eval cfg18 (g_pinned (fun l => l)) 0 <> alpha_eval cfg18 (g_pinned (@rev string)) 0.
+Proof. vm_compute. discriminate. Qed.
+Print Assumptions assets_order_leak_refuted.
